@@ -28,6 +28,13 @@ theorem pieceToks_goWrap (lvl : Nat) (c : Expr) (ps : List Piece) :
   unfold goWrap wrapIf
   by_cases h : lvl > goPrec c <;> simp [h]
 
+theorem pieceToks_goWrapRecv (lvl : Nat) (c : Expr) (ps : List Piece) :
+    pieceToks (goWrapRecv lvl c ps) = wrapIf (isNegLong c || decide (lvl > goPrec c)) (pieceToks ps) := by
+  unfold goWrapRecv
+  cases hn : isNegLong c with
+  | true => simp [wrapIf]
+  | false => simp [pieceToks_goWrap]
+
 /-! ## Go's levels against the grammar's -/
 
 theorem goPrec_le_prec (c : Expr) (h : isNegLong c = false) : goPrec c ≤ prec c := by
@@ -49,7 +56,7 @@ theorem prec_negLong (c : Expr) (h : isNegLong c = true) : prec c = 6 := by
   | _ => simp [isNegLong] at h
 
 /-- an operand written by `marshalChildNode(g, c)` is a valid rendering where level `q ≤ g` is required,
-    unless `c` is a negative literal and `q = 7` (the defect) -/
+    unless `c` is a negative literal and `q = 7` (receivers: `rend_goWrapRecv`) -/
 theorem rend_goWrap {c : Expr} {ts : List Token} (h : Rend (.e (prec c) c) ts) (g q : Nat) (hq : q ≤ g)
     (hneg : isNegLong c = true → q ≤ 6) : Rend (.e q c) (wrapIf (decide (g > goPrec c)) ts) := by
   refine rend_wrap h _ q (fun hb => ?_)
@@ -58,153 +65,21 @@ theorem rend_goWrap {c : Expr} {ts : List Token} (h : Rend (.e (prec c) c) ts) (
   | true => rw [prec_negLong c hn]; exact hneg hn
   | false => exact Nat.le_trans (Nat.le_trans hq hb) (goPrec_le_prec c hn)
 
+/-- a receiver written by `marshalReceiverNode(7, c)` is a valid rendering at member level -/
+theorem rend_goWrapRecv {c : Expr} {ts : List Token} (h : Rend (.e (prec c) c) ts) :
+    Rend (.e 7 c) (wrapIf (isNegLong c || decide (7 > goPrec c)) ts) := by
+  cases hn : isNegLong c with
+  | true => exact rend_wrap h _ 7 (fun hb => by simp at hb)
+  | false =>
+    simp only [Bool.false_or]
+    exact rend_goWrap h 7 7 (Nat.le_refl _) (fun hn' => by rw [hn] at hn'; cases hn')
+
 theorem goInfix_binForm {op : BinOp} {tok : Token} {lp rp : Nat} (h : goInfix op = some (tok, lp, rp)) :
     binForm op = .infixOp tok lp rp ∧ lp ≤ 6 ∧ rp ≤ 6 := by
   cases op <;> simp [goInfix] at h <;> obtain ⟨rfl, rfl, rfl⟩ := h <;> simp [binForm]
 
 theorem goInfix_none {op : BinOp} (h : goInfix op = none) : binForm op = .method (goMethodName op) ∧ binPrec op = 7 := by
   cases op <;> simp [goInfix] at h <;> simp [binForm, goMethodName, binPrec]
-
-theorem wrapIf_ne_nil (b : Bool) (ts : List Token) (h : ts ≠ []) : wrapIf b ts ≠ [] := by
-  cases b <;> simp [wrapIf, h]
-
-theorem marshal_ne_nil (e : Expr) (h : inFragGo e = true) : pieceToks (marshalExpr e) ≠ [] := by
-  cases e with
-  | lit v =>
-    cases v <;> simp [inFragGo] at h <;> simp [marshalExpr, marshalLit]
-    split <;> simp
-  | var v => simp [marshalExpr]
-  | unop op e => cases op <;> simp [marshalExpr]
-  | binop op l r => simp only [marshalExpr]; split <;> simp
-  | ite c t e => simp [marshalExpr]
-  | access e a => simp only [marshalExpr, goAccessP]; split <;> simp
-  | has e a => simp [marshalExpr]
-  | like e p => simp [inFragGo] at h
-  | is e ty => simp [marshalExpr]
-  | isIn e ty r => simp [marshalExpr]
-  | set es => simp [marshalExpr]
-  | record kes => simp [marshalExpr]
-  | call fn args =>
-    simp only [inFragGo, Bool.and_eq_true, callOK] at h
-    cases args with
-    | nil =>
-      simp only [marshalExpr]
-      split
-      · rename_i hm; simp [hm] at h
-      · simp
-    | cons r rest =>
-      simp only [marshalExpr]
-      split <;> simp
-
-theorem go_head_operand (e : Expr) (g : Nat) (more : List Token) (hne : pieceToks (marshalExpr e) ≠ [])
-    (h : goPrec e < g ∨ ((peek (pieceToks (marshalExpr e))).ty == .int) = false) :
-    ((peek (wrapIf (decide (g > goPrec e)) (pieceToks (marshalExpr e)) ++ more)).ty == .int) = false := by
-  rw [peek_wrapIf _ _ _ hne]
-  by_cases hq : g > goPrec e
-  · simp [hq, opT]
-  · simp only [hq, decide_false, Bool.false_eq_true, ↓reduceIte]
-    rcases h with h | h
-    · exact absurd h hq
-    · exact h
-
-theorem goHeadInt_spec : ∀ (e : Expr), inFragGo e = true → goHeadInt e = false →
-    ((peek (pieceToks (marshalExpr e))).ty == .int) = false
-  | .lit v, h, hh => by
-    cases v <;> simp [inFragGo] at h
-    · rename_i b; cases b <;> rfl
-    · rename_i n
-      simp only [goHeadInt, decide_eq_false_iff_not, Int.not_le] at hh
-      simp [marshalExpr, marshalLit, hh, peek, opT]
-    · rfl
-    · rename_i ty id
-      obtain ⟨first, parts, hp⟩ := pathOK_of_isPathName ty h.1
-      simp only [marshalExpr, marshalLit, pieceToks_toksP, hp.toks]
-      rfl
-  | .var _, _, _ => rfl
-  | .unop .not _, _, _ => rfl
-  | .unop .neg _, _, _ => rfl
-  | .unop .isEmpty e, h, hh => by
-    simp only [inFragGo, Bool.and_eq_true] at h
-    simp only [goHeadInt, Bool.and_eq_false_iff, decide_eq_false_iff_not, Nat.not_le] at hh
-    simp only [marshalExpr, pieceToks_append, pieceToks_goWrap]
-    refine go_head_operand e 7 _ (marshal_ne_nil e h.1) ?_
-    rcases hh with hh | hh
-    · exact .inl hh
-    · exact .inr (goHeadInt_spec e h.1 hh)
-  | .binop op l r, h, hh => by
-    simp only [inFragGo, Bool.and_eq_true] at h
-    simp only [goHeadInt] at hh
-    simp only [marshalExpr]
-    cases hf : goInfix op with
-    | some v =>
-      obtain ⟨tok, lp, rp⟩ := v
-      simp only [hf, Bool.and_eq_false_iff, decide_eq_false_iff_not, Nat.not_le] at hh ⊢
-      simp only [pieceToks_append, pieceToks_goWrap]
-      refine go_head_operand l lp _ (marshal_ne_nil l h.1.1) ?_
-      rcases hh with hh | hh
-      · exact .inl hh
-      · exact .inr (goHeadInt_spec l h.1.1 hh)
-    | none =>
-      simp only [hf, Bool.and_eq_false_iff, decide_eq_false_iff_not, Nat.not_le] at hh ⊢
-      simp only [pieceToks_append, pieceToks_goWrap]
-      refine go_head_operand l 7 _ (marshal_ne_nil l h.1.1) ?_
-      rcases hh with hh | hh
-      · exact .inl hh
-      · exact .inr (goHeadInt_spec l h.1.1 hh)
-  | .ite _ _ _, _, _ => rfl
-  | .access e a, h, hh => by
-    simp only [inFragGo, Bool.and_eq_true] at h
-    simp only [goHeadInt, Bool.and_eq_false_iff, decide_eq_false_iff_not, Nat.not_le] at hh
-    simp only [marshalExpr, pieceToks_append, pieceToks_goWrap]
-    refine go_head_operand e 7 _ (marshal_ne_nil e h.1.1) ?_
-    rcases hh with hh | hh
-    · exact .inl hh
-    · exact .inr (goHeadInt_spec e h.1.1 hh)
-  | .has e a, h, hh => by
-    simp only [inFragGo, Bool.and_eq_true] at h
-    simp only [goHeadInt, Bool.and_eq_false_iff, decide_eq_false_iff_not, Nat.not_le] at hh
-    simp only [marshalExpr, pieceToks_append, pieceToks_goWrap]
-    refine go_head_operand e 4 _ (marshal_ne_nil e h.1) ?_
-    rcases hh with hh | hh
-    · exact .inl hh
-    · exact .inr (goHeadInt_spec e h.1 hh)
-  | .like _ _, h, _ => by simp [inFragGo] at h
-  | .is e ty, h, hh => by
-    simp only [inFragGo, Bool.and_eq_true] at h
-    simp only [goHeadInt, Bool.and_eq_false_iff, decide_eq_false_iff_not, Nat.not_le] at hh
-    simp only [marshalExpr, pieceToks_append, pieceToks_goWrap]
-    refine go_head_operand e 4 _ (marshal_ne_nil e h.1) ?_
-    rcases hh with hh | hh
-    · exact .inl hh
-    · exact .inr (goHeadInt_spec e h.1 hh)
-  | .isIn e ty r, h, hh => by
-    simp only [inFragGo, Bool.and_eq_true] at h
-    simp only [goHeadInt, Bool.and_eq_false_iff, decide_eq_false_iff_not, Nat.not_le] at hh
-    simp only [marshalExpr, pieceToks_append, pieceToks_goWrap]
-    refine go_head_operand e 4 _ (marshal_ne_nil e h.1.1) ?_
-    rcases hh with hh | hh
-    · exact .inl hh
-    · exact .inr (goHeadInt_spec e h.1.1 hh)
-  | .set _, _, _ => rfl
-  | .record _, _, _ => rfl
-  | .call fn [], h, _ => by
-    simp only [inFragGo, Bool.and_eq_true, callOK] at h
-    simp only [marshalExpr]
-    split
-    · rename_i hm; simp [hm] at h
-    · rfl
-  | .call fn (recv :: rest), h, hh => by
-    simp only [inFragGo, inFragGoList, Bool.and_eq_true] at h
-    simp only [marshalExpr]
-    split
-    · rename_i hm
-      simp only [goHeadInt, hm, Bool.true_and, Bool.and_eq_false_iff, decide_eq_false_iff_not, Nat.not_le] at hh
-      simp only [pieceToks_append, pieceToks_goWrap]
-      refine go_head_operand recv 7 _ (marshal_ne_nil recv h.1.2.1) ?_
-      rcases hh with hh | hh
-      · exact .inl hh
-      · exact .inr (goHeadInt_spec recv h.1.2.1 hh)
-    · rfl
 
 mutual
 /-- the token list of `MarshalCedar(e)` is a valid rendering of `e` at the natural level of `e` -/
@@ -227,11 +102,11 @@ theorem marshal_rend : ∀ (e : Expr), inFragGo e = true → Rend (.e (prec e) e
         have := Rend.litNat (lvl := 8) n.toNat (by omega)
         rw [int_toNat_nonneg n hn] at this
         exact this
-    · rename_i s; exact .litStr s ((noFFFD_iff s).mp h)
+    · rename_i s; exact .litStr s
     · rename_i ty id
-      obtain ⟨first, parts, hp⟩ := pathOK_of_isPathName ty h.1
+      obtain ⟨first, parts, hp⟩ := pathOK_of_isPathName ty h
       simp only [marshalExpr, marshalLit, pieceToks_toksP]
-      exact .entity ty id first parts hp ((noFFFD_iff id).mp h.2)
+      exact .entity ty id first parts hp
   | .var v, _ => .var v
   | .unop .not e, h => by
     simp only [inFragGo] at h
@@ -239,30 +114,19 @@ theorem marshal_rend : ∀ (e : Expr), inFragGo e = true → Rend (.e (prec e) e
     exact .not (rend_goWrap (marshal_rend e h) 6 6 (Nat.le_refl _) (fun _ => Nat.le_refl _)) (Nat.le_refl _)
   | .unop .neg e, h => by
     simp only [inFragGo, Bool.and_eq_true, Bool.not_eq_true'] at h
-    have hne := marshal_ne_nil e h.1.1
     have hp : prec (.unop .neg e) = 6 := rfl
     rw [hp]
     simp only [marshalExpr, pieceToks_t, pieceToks_goWrap]
-    refine .neg (rend_goWrap (marshal_rend e h.1.1) 6 6 (Nat.le_refl _) (fun _ => Nat.le_refl _)) ?_ (Nat.le_refl _)
-    have hpk := peek_wrapIf (decide (6 > goPrec e)) (pieceToks (marshalExpr e)) [] hne
-    rw [List.append_nil] at hpk
-    rw [hpk]
-    by_cases hb : 6 > goPrec e
-    · simp [hb, opT]
-    · simp only [hb, decide_false, Bool.false_eq_true, ↓reduceIte]
-      have h2 := h.2
-      simp only [Bool.or_eq_true, decide_eq_true_eq, Bool.not_eq_true'] at h2
-      rcases h2 with h2 | h2
-      · exact absurd h2 hb
-      · exact goHeadInt_spec e h.1.1 h2
+    have hw := rend_goWrap (marshal_rend e h.1) 6 6 (Nat.le_refl _) (fun _ => Nat.le_refl _)
+    exact .neg hw (negLitAt_of_rend hw (Nat.le_refl _) h.2) (Nat.le_refl _)
   | .unop .isEmpty e, h => by
-    simp only [inFragGo, Bool.and_eq_true, Bool.not_eq_true'] at h
-    simp only [marshalExpr, pieceToks_append, pieceToks_goWrap, pieceToks_toksP]
-    exact .isEmpty (rend_goWrap (marshal_rend e h.1) 7 7 (Nat.le_refl _) (fun hn => by rw [h.2] at hn; cases hn)) (Nat.le_refl _)
+    simp only [inFragGo] at h
+    simp only [marshalExpr, pieceToks_append, pieceToks_goWrapRecv, pieceToks_toksP]
+    exact .isEmpty (rend_goWrapRecv (marshal_rend e h)) (Nat.le_refl _)
   | .binop op l r, h => by
-    simp only [inFragGo, Bool.and_eq_true, Bool.or_eq_true, Bool.not_eq_true'] at h
-    have hl := marshal_rend l h.1.1
-    have hr := marshal_rend r h.1.2
+    simp only [inFragGo, Bool.and_eq_true] at h
+    have hl := marshal_rend l h.1
+    have hr := marshal_rend r h.2
     have hp : prec (.binop op l r) = binPrec op := rfl
     rw [hp]
     simp only [marshalExpr]
@@ -276,13 +140,8 @@ theorem marshal_rend : ∀ (e : Expr), inFragGo e = true → Rend (.e (prec e) e
     | none =>
       obtain ⟨hb, hp7⟩ := goInfix_none hf
       rw [hp7]
-      have hneg : isNegLong l = false := by
-        rcases h.2 with h2 | h2
-        · rw [hf] at h2; cases h2
-        · exact h2
-      simp only [pieceToks_append, pieceToks_goWrap, pieceToks_t, pieceToks_nil]
-      exact .method hb (rend_goWrap hl 7 7 (Nat.le_refl _) (fun hn => by rw [hneg] at hn; cases hn))
-        (rend_goWrap hr 7 0 (Nat.zero_le _) (fun _ => by omega)) (Nat.le_refl _)
+      simp only [pieceToks_append, pieceToks_goWrap, pieceToks_goWrapRecv, pieceToks_t, pieceToks_nil]
+      exact .method hb (rend_goWrapRecv hl) (rend_goWrap hr 7 0 (Nat.zero_le _) (fun _ => by omega)) (Nat.le_refl _)
   | .ite c t e, h => by
     simp only [inFragGo, Bool.and_eq_true] at h
     simp only [marshalExpr, pieceToks_append, pieceToks_goWrap, pieceToks_s, pieceToks_t]
@@ -290,19 +149,19 @@ theorem marshal_rend : ∀ (e : Expr), inFragGo e = true → Rend (.e (prec e) e
       (rend_goWrap (marshal_rend t h.1.2) 0 0 (Nat.le_refl _) (fun _ => by omega))
       (rend_goWrap (marshal_rend e h.2) 0 0 (Nat.le_refl _) (fun _ => by omega))
   | .access e a, h => by
-    simp only [inFragGo, Bool.and_eq_true, Bool.not_eq_true'] at h
-    have hr := rend_goWrap (marshal_rend e h.1.1) 7 7 (Nat.le_refl _) (fun hn => by rw [h.2] at hn; cases hn)
+    simp only [inFragGo] at h
+    have hr := rend_goWrapRecv (marshal_rend e h)
     have hp : prec (.access e a) = 7 := rfl
     rw [hp]
-    simp only [marshalExpr, goAccessP, pieceToks_append, pieceToks_goWrap]
+    simp only [marshalExpr, goAccessP, pieceToks_append, pieceToks_goWrapRecv]
     by_cases hc : isIdentName a = true
     · simp only [hc, ↓reduceIte, pieceToks_t, pieceToks_nil]
       exact .accessDot a hr (Nat.le_refl _)
     · simp only [hc, Bool.false_eq_true, ↓reduceIte, pieceToks_t, pieceToks_nil]
-      exact .accessIdx a ((noFFFD_iff a).mp h.1.2) hr (Nat.le_refl _)
+      exact .accessIdx a hr (Nat.le_refl _)
   | .has e a, h => by
-    simp only [inFragGo, Bool.and_eq_true] at h
-    have hr := rend_goWrap (marshal_rend e h.1) 4 4 (Nat.le_refl _) (fun _ => by omega)
+    simp only [inFragGo] at h
+    have hr := rend_goWrap (marshal_rend e h) 4 4 (Nat.le_refl _) (fun _ => by omega)
     have hp : prec (.has e a) = 3 := rfl
     rw [hp]
     simp only [marshalExpr, goAttrP, pieceToks_append, pieceToks_goWrap, pieceToks_s, pieceToks_t]
@@ -310,7 +169,7 @@ theorem marshal_rend : ∀ (e : Expr), inFragGo e = true → Rend (.e (prec e) e
     · simp only [hc, ↓reduceIte, pieceToks_t, pieceToks_nil]
       exact .hasId a hr (Nat.le_refl _)
     · simp only [hc, Bool.false_eq_true, ↓reduceIte, pieceToks_t, pieceToks_nil]
-      exact .hasStr a ((noFFFD_iff a).mp h.2) hr (Nat.le_refl _)
+      exact .hasStr a hr (Nat.le_refl _)
   | .like _ _, h => by simp [inFragGo] at h
   | .is e ty, h => by
     simp only [inFragGo, Bool.and_eq_true] at h
@@ -343,26 +202,21 @@ theorem marshal_rend : ∀ (e : Expr), inFragGo e = true → Rend (.e (prec e) e
       have hp : prec (.call fn []) = 8 := by simp [prec, hm']
       rw [hp]
       simp only [marshalExpr, hm', Bool.false_eq_true, ↓reduceIte, pieceToks_t, pieceToks_append, pieceToks_nil]
-      exact .callFn (checkFunction_of_callOK fn [] hm' h.1.1) (marshalArgs_rend 7 [] rfl)
+      exact .callFn (checkFunction_of_callOK fn [] hm' h.1) (marshalArgs_rend 7 [] rfl)
   | .call fn (recv :: rest), h => by
-    simp only [inFragGo, inFragGoList, Bool.and_eq_true, Bool.or_eq_true, Bool.not_eq_true'] at h
+    simp only [inFragGo, inFragGoList, Bool.and_eq_true] at h
     by_cases hm : isMethodName fn = true
     · have hp : prec (.call fn (recv :: rest)) = 7 := by simp [prec, hm]
       rw [hp]
-      have hneg : isNegLong recv = false := by
-        rcases h.2 with h2 | h2
-        · rw [hm] at h2; cases h2
-        · exact h2
-      simp only [marshalExpr, hm, ↓reduceIte, pieceToks_t, pieceToks_append, pieceToks_goWrap, pieceToks_nil]
-      exact .callMethod (mkMethod_ext fn hm recv rest)
-        (rend_goWrap (marshal_rend recv h.1.2.1) 7 7 (Nat.le_refl _) (fun hn => by rw [hneg] at hn; cases hn))
-        (marshalArgs_rend 7 rest h.1.2.2) (Nat.le_refl _)
+      simp only [marshalExpr, hm, ↓reduceIte, pieceToks_t, pieceToks_append, pieceToks_goWrapRecv, pieceToks_nil]
+      exact .callMethod (mkMethod_ext fn hm recv rest) (rend_goWrapRecv (marshal_rend recv h.2.1))
+        (marshalArgs_rend 7 rest h.2.2) (Nat.le_refl _)
     · have hm' : isMethodName fn = false := by simpa using hm
       have hp : prec (.call fn (recv :: rest)) = 8 := by simp [prec, hm']
       rw [hp]
       simp only [marshalExpr, hm', Bool.false_eq_true, ↓reduceIte, pieceToks_t, pieceToks_append, pieceToks_nil]
-      have hargs : inFragGoList (recv :: rest) = true := by simp [inFragGoList, h.1.2.1, h.1.2.2]
-      exact .callFn (checkFunction_of_callOK fn _ hm' h.1.1) (marshalArgs_rend 7 (recv :: rest) hargs)
+      have hargs : inFragGoList (recv :: rest) = true := by simp [inFragGoList, h.2.1, h.2.2]
+      exact .callFn (checkFunction_of_callOK fn _ hm' h.1) (marshalArgs_rend 7 (recv :: rest) hargs)
 theorem marshalArgs_rend (g : Nat) : ∀ (es : List Expr), inFragGoList es = true → Rend (.args es) (pieceToks (marshalArgs g es))
   | [], _ => .argsNil
   | [e], h => by
@@ -377,15 +231,15 @@ theorem marshalArgs_rend (g : Nat) : ∀ (es : List Expr), inFragGoList es = tru
 theorem marshalKVs_rend : ∀ (kes : List (String × Expr)), inFragGoKVs kes = true → Rend (.kvs kes) (pieceToks (marshalKVs kes))
   | [], _ => .kvsNil
   | [(k, e)], h => by
-    simp only [inFragGoKVs, Bool.and_true, Bool.and_eq_true] at h
+    simp only [inFragGoKVs, Bool.and_true] at h
     simp only [marshalKVs, pieceToks_t, pieceToks_goWrap]
-    exact .kvsOne (keyTok_string k ((noFFFD_iff k).mp h.1)) (rend_goWrap (marshal_rend e h.2) 8 0 (Nat.zero_le _) (fun _ => by omega))
+    exact .kvsOne (keyTok_string k) (rend_goWrap (marshal_rend e h) 8 0 (Nat.zero_le _) (fun _ => by omega))
   | (k, e) :: ke' :: kes, h => by
     rw [inFragGoKVs] at h
     simp only [Bool.and_eq_true] at h
     have h2 : inFragGoKVs (ke' :: kes) = true := h.2
     simp only [marshalKVs, pieceToks_t, pieceToks_append, pieceToks_goWrap, pieceToks_s]
-    exact .kvsCons (keyTok_string k ((noFFFD_iff k).mp h.1.1)) (rend_goWrap (marshal_rend e h.1.2) 8 0 (Nat.zero_le _) (fun _ => by omega))
+    exact .kvsCons (keyTok_string k) (rend_goWrap (marshal_rend e h.1) 8 0 (Nat.zero_le _) (fun _ => by omega))
       (by simp) (marshalKVs_rend (ke' :: kes) h2)
 end
 
